@@ -148,3 +148,4 @@ def rest(ctx):
     # dependencies (round-3 seeds C07-5, C07-6): the disconnect permit travels through the Semphore hand-off; the spsc thread receiver's re-check
     ctx.import_rules("C10", r"^handshake|^waker")
     ctx.import_rules("C06", r"^spsc/thread-register-then-recheck")
+    taken_waiter_is_woken(ctx, only=r"sync::(mpsc|spsc)::InnerQueue\.(to_wake|wait_co)$")
